@@ -4,6 +4,7 @@ import Driver.C03
 import Driver.C05
 import Driver.C06
 import Driver.C07
+import Driver.C08
 import Driver.C09
 import Driver.C11
 import Driver.C12
@@ -20,6 +21,7 @@ def dispatch (j : Json) : Except String Json := do
   | "C05" => Drv.C05.handle j
   | "C06" => Drv.C06.handle j
   | "C07" => Drv.C07.handle j
+  | "C08" => Drv.C08.handle j
   | "C09" => Drv.C09.handle j
   | "C11" => Drv.C11.handle j
   | "C12" => Drv.C12.handle j
